@@ -64,12 +64,58 @@ def outcomeOf : Char → Option Outcome
 def outcomesOf (cs : List Char) : Nat → Outcome :=
   fun k => ((cs.filterMap outcomeOf).getD k .ok)
 
-/-- One page fetch on an `n`-node cluster whose pools all have connections: the C06 model of the fiber
-with the default retry policy over a plan of `n` targets. -/
-def clusterFetch (n : Nat) (idem : Bool) (cs : List Char) : Trace :=
-  Exec.run .default idem .localQuorum (List.replicate n Target.always) (outcomesOf cs)
+/-! ### which node each request goes to
+
+Nodes are numbers. The plan of a page fetch (pager.rs 337-365) is the node that served the previous page
+(`stable_coordinator`) followed by the load-balancing plan without it; for the first page it is the
+load-balancing plan. (Unsharded nodes, as in the harness's clusters: a node is one target; the sharded
+case - coordinator with a shard - is `Speculative.pagerPlan`, C13.) The execution core numbers targets
+by their position in the plan: attempt `a` goes to node `plan[a.target]`. -/
+
+def pagePlan (coord : Option Nat) (lb : List Nat) : List Nat :=
+  match coord with
+  | none => lb
+  | some c => c :: lb.filter (· != c)
+
+/-- One page fetch: its plan (node ids) and the execution core's trace over that plan. -/
+structure Fetch where
+  plan : List Nat
+  trace : Trace
+
+/-- The node every request of the fetch went to, in order. -/
+def Fetch.nodes (f : Fetch) : List Nat := f.trace.attempts.map fun a => f.plan.getD a.target 0
+
+/-- `RequestExecutionOutcome::coordinator` of a completed fetch (execution.rs 561, 582-585): the node of the
+attempt that succeeded; it becomes `stable_coordinator` (pager.rs 392, 482). -/
+def Fetch.coordinator (f : Fetch) : Option Nat :=
+  match f.trace.final with
+  | .completed t => some (f.plan.getD t 0)
+  | _ => none
+
+/-- The page fetches of one iteration: page `j` has the load-balancing plan `lb_j` (whatever the policy
+returned: a fresh plan per page, pager.rs 338-339) and the scripted outcomes `outs_j` of its attempts. The
+iteration goes on to the next page only after a completed fetch, whose coordinator heads the next plan.
+All pools have connections. -/
+def fetches (pol : Policy) (idem : Bool) (cl : Consistency) :
+    Option Nat → List (List Nat × (Nat → Outcome)) → List Fetch
+  | _, [] => []
+  | coord, (lb, outs) :: rest =>
+    let plan := pagePlan coord lb
+    let f : Fetch := ⟨plan, Exec.run pol idem cl (plan.map fun _ => Target.always) outs⟩
+    f :: (match f.coordinator with
+          | some c => fetches pol idem cl (some c) rest
+          | none => [])
+
+/-- The fetches of the harness's `n`-node cluster family: default retry policy, load-balancing plan
+`0 .. n-1` for every page (the real policy's order is random; nothing below depends on it). -/
+def clusterFetches (n : Nat) (idem : Bool) (pageFaultLetters : List (List Char)) : List Fetch :=
+  fetches .default idem .localQuorum none (pageFaultLetters.map fun cs => (List.range n, outcomesOf cs))
 
 def clusterAttempts (n : Nat) (idem : Bool) (pageFaultLetters : List (List Char)) : List Pager.Attempt :=
-  pageFaults (pageFaultLetters.map (clusterFetch n idem))
+  pageFaults ((clusterFetches n idem pageFaultLetters).map Fetch.trace)
+
+/-- One page fetch of that family on its own (first page). -/
+def clusterFetch (n : Nat) (idem : Bool) (cs : List Char) : Trace :=
+  Exec.run .default idem .localQuorum ((List.range n).map fun _ => Target.always) (outcomesOf cs)
 
 end ScyllaVerif.PagerExec
